@@ -1,9 +1,5 @@
--- Root of the library: every model, property and facts module (built by setup.sh; the checks rebuild
--- only what they need).
+-- Library root. The checks and setup.sh build modules explicitly (Props/*, Driver/*), so this only names
+-- the shared base.
 import Fabio.Basic
 import Fabio.Audit
 import Fabio.Driver.Proto
-import Fabio.Driver.C20
-import Fabio.Model.C20
-import Fabio.Props.C20
-import Fabio.Props.C20Facts
